@@ -692,6 +692,33 @@ def search(payload):
         bad_out = check_in_language(ts2, second)
         if bad_out is not None and not bad_out.get("optimize"):
             fails.append({"text": second, "tokens": ts2, **bad_out, "history": f"in one process: {first!r} was handled first, then {second!r}"})
+    # ENVIRONMENT: every environment variable the command line declares for an option (click's `envvar`) is set to "1" in a fresh process
+    # WITHOUT the option on the command line: what is printed without -o must stay the expression's own table / rendering
+    try:
+        import typer as _typer
+        cli = _typer.main.get_command(MAIN.app)
+        envvars = set()
+        for sub in getattr(cli, "commands", {}).values():
+            for prm in sub.params:
+                ev = getattr(prm, "envvar", None)
+                for e_ in ([ev] if isinstance(ev, str) else list(ev or [])):
+                    envvars.add(e_)
+    except Exception:  # noqa: BLE001
+        envvars = set()
+    for e_ in sorted(envvars):
+        for text in ("a | ~a", "p & p", "a ^ (a | b)"):
+            for cmd in ("table", "json"):
+                n += 1
+                env_ = dict(os.environ, PYTHONPATH=vlib.REPO, PYTHONHASHSEED="0")
+                plain = subprocess.run([sys.executable, MAIN_PATH, cmd, text], capture_output=True, text=True, env=env_, timeout=900, check=False).stdout
+                withenv = subprocess.run([sys.executable, MAIN_PATH, cmd, text], capture_output=True, text=True, env=dict(env_, **{e_: "1"}), timeout=900, check=False).stdout
+                if plain != withenv:
+                    fails.append({"text": text, "tokens": text.split(), "cmd": cmd, "optimize": False, "what": f"the output without -o changes when the environment variable {e_}=1 is set",
+                                  "stdout": withenv[:300], "stdout_without_the_variable": plain[:300]})
+                    break
+            else:
+                continue
+            break
     known = [k for k in vlib.load_known().get("findings", []) if "C20" in k.get("properties", [])]
     known_ids = {k["id"] for k in known}
     new, known_hits = [], []
